@@ -58,6 +58,36 @@ EXTRA_GRID = [(0.0, 0.1), (0.0, 0.7), (0.2, 0.8), (1.0, 2.0), (0.0, 3.0), (0.0, 
               (0.0, 0.6), (-7.3, -1.1), (0.05, 0.95)]
 
 
+def theorem_grid():
+    """The 266 intervals of make_knots_float_bounded_2000 (coq/C19/FloatGridDefs.v: grid_all), in the
+    same order, as pairs of Fractions; a generated obligation checks on every run that their nearest
+    doubles are bit for bit the ones the theorem is about."""
+    Fr = Fraction
+
+    def pairs_of(l):
+        return [(x, y) for i, x in enumerate(l) for y in l[i + 1:]]
+    g = pairs_of([Fr(k, 10) for k in range(11)])
+    g += pairs_of([Fr(0), Fr(1, 4), Fr(1, 3), Fr(1, 2), Fr(2, 3), Fr(3, 4), Fr(1)])
+    g += pairs_of([Fr(x) for x in (-2, -1, 0, 1, 2, 3, 5, 10)])
+    g += pairs_of([Fr(k, 7) for k in range(8)])
+    g += pairs_of([Fr(-1), Fr(-1, 2), Fr(0), Fr(1, 4), Fr(1, 2), Fr(3, 4), Fr(1), Fr(3, 2), Fr(2)])
+    g += pairs_of([1 + Fr(k, 10) for k in range(11)])
+    g += [(Fr(0), Fr(10) ** k) for k in range(-6, 7)] + [(Fr(10) ** k, Fr(10) ** (k + 1)) for k in range(-6, 6)]
+    g += [(Fr(-1, 2), Fr(1, 4)), (Fr(1, 1000), Fr(1000)), (Fr(100), Fr(1001, 10)), (Fr(-37, 10), Fr(129, 10)),
+          (Fr(1234567, 10), Fr(6543219, 10)), (Fr(-1000000), Fr(1000000)),
+          (Fr(0), Fr(7)), (Fr(-5, 2), Fr(5, 2)), (Fr(10), Fr(11)), (Fr(-1, 10), Fr(1, 10)), (Fr(11, 2), Fr(28, 5)),
+          (Fr(0), Fr(6283185307179586, 10 ** 15)), (Fr(1000), Fr(1001)), (Fr(-1, 10 ** 6), Fr(1, 10 ** 6)),
+          (Fr(7, 10), Fr(19, 10)), (Fr(-73, 10), Fr(-11, 10)), (Fr(1, 20), Fr(19, 20)), (Fr(0), Fr(3))]
+    return g
+
+
+def q2f(x):
+    return x.numerator / x.denominator      # correctly rounded quotient of two exact doubles (< 2^53)
+
+
+THEOREM_GRID = [(q2f(a), q2f(b)) for a, b in theorem_grid()]
+
+
 def rand_interval(rng):
     kind = rng.random()
     if kind < 0.3:   # decimal end points
@@ -449,18 +479,22 @@ def run(ctx):
         'make_knots is modelled in its repaired form (np.linspace, fixes/C19-make-knots-linspace.patch), __eq__ with the '
         'symmetric tolerance of fixes/C19-eq-symmetric.patch; the unrepaired forms are kept as make_knots_old(_f)/kv_eq_old '
         'with *_refuted theorems',
-        'tie T: translate/np_expr.py regenerates the array expressions from the current source, coq proves them equal '
+        'tie T: translate/np_expr.py regenerates the array expressions (make_knots, greville, refine, mesh_support_idx_all, '
+        'mesh_span_indices, Spline.derivative) from the current source, coq proves them equal '
         '(reflexivity) to the model; tie C: make_knots bit-exact against the PrimFloat model, all integer/array-copy '
         'queries exactly against the Qc model, float results within the bounds stated at the top of harness/props/c19.py',
         'not covered: numpy internals beyond the bit-exact comparison; scipy splev (only compared with itself); '
-        'the binary64 theorem is bounded (16 intervals, n <= 2000) as stated in its name',
+        'the binary64 theorem is bounded (the 266 intervals listed in its statement, n <= 2000)',
     ]
     translator_stage(ctx)
 
     # ---------------- generate ----------------
     mk = gen_mk(ctx)
     kvs, badkvs = gen_kvs(ctx)
-    grid = GRID + EXTRA_GRID if thorough else [GRID[0]] + ctx.rng.sample(GRID[1:], 2) + [ctx.rng.choice(EXTRA_GRID)]
+    if thorough:
+        grid = GRID + EXTRA_GRID + ctx.rng.sample(THEOREM_GRID, 40)
+    else:
+        grid = [GRID[0]] + ctx.rng.sample(THEOREM_GRID, 3) + [ctx.rng.choice(EXTRA_GRID)]
     for _ in range(8 if thorough else 1):
         a = round(ctx.rng.uniform(-5, 5), 2)
         grid.append((float(a), float(a + round(ctx.rng.uniform(0.05, 9), 2))))
@@ -611,6 +645,15 @@ def run(ctx):
         body = MK_HEADER + 'Definition ivs := %s.\n' % clist(['(%s, %s)' % (cf(a), cf(b)) for a, b in ch]) + \
             'Eval vm_compute in bad_cases (fun ab => grid_check 2000 [ab]) 0 ivs.\n'
         files.append(('C19_grid_%03d' % n, body, ('grid', ch)))
+    # the intervals of the bounded theorem are bit for bit the doubles Python denotes by these rationals
+    body = MK_HEADER + 'From Verif.C19 Require Import FloatGridDefs.\n' + \
+        'Definition harness_grid := %s.\n' % clist(['(%s, %s)' % (cf(a), cf(b)) for a, b in THEOREM_GRID]) + \
+        'Fixpoint same_grid (x y : list (float * float)) : bool :=\n' \
+        '  match x, y with [], [] => true\n' \
+        '  | (a, b) :: x\', (c, d) :: y\' => same_bits a c && same_bits b d && same_grid x\' y\'\n' \
+        '  | _, _ => false end.\n' \
+        'Eval vm_compute in (if same_grid harness_grid (map f_of_qq grid_all) then [] else [0%nat]).\n'
+    files.append(('C19_theorem_grid', body, ('thgrid', None)))
     # malformed stream: the model rejects what the constructor rejects
     body = KV_HEADER + 'From Verif.C19 Require Import Model.\nDefinition cases := %s.\n' % clist(
         [clist(c['kv'], qh) for c in badkvs]) + \
@@ -627,6 +670,10 @@ def run(ctx):
     ndis = 0
     for (kind, chunk), lst in results:
         if lst is None:
+            continue
+        if kind == 'thgrid':
+            if lst:
+                ctx.broken.append('the interval list of make_knots_float_bounded_2000 is not the list the harness sweeps')
             continue
         if kind == 'selftest':
             if 3 not in lst:
@@ -688,18 +735,22 @@ def run(ctx):
 META = {
     'technique': 'Rocq proofs over exact rationals for the constructor and every KnotVector query (closed form of every knot, '
                  'mesh = break points, findspan from C02, index-map consistency, sorted union) + a bounded PrimFloat theorem '
-                 '(computed for 16 intervals x n<=2000, lifted by proof over every p and mult) + translator tie + bit-exact/'
+                 '(computed for 266 rational/decimal intervals x n<=2000, lifted by proof over every p and mult) + translator tie + bit-exact/'
                  'exact correspondence with the implementation',
     'level_text': 'Theorems (Coq): for every p, a<b, n>=1, mult>=1 the (repaired, np.linspace) constructor model has p+1+mult(n-1) '
                   'dofs, knot i is break point bpidx(i) (first/last p+1 times, interior mult times), is open/non-decreasing '
                   '(kv_ok), has exactly n spans with break points a+i(b-a)/n ending at b, and findspan returns the unique non-empty '
-                  'span (C02). In binary64: for 16 intervals, n<=2000 and every p, mult the float model is non-decreasing with n '
+                  'span (C02). In binary64: for the 266 rational/decimal intervals listed in the theorem, n<=2000 and every p, mult the float model is non-decreasing with n '
                   'strictly increasing spans ending exactly at b (make_knots_float_bounded_2000); the np.arange formula of the '
                   'unrepaired source is refuted (n=49). For every knot vector: mesh strictly increasing, mesh[k2m[i]] = kv[i], '
                   'support = mesh[mesh_support_idx], mesh_support_idx_all row-wise, mesh_span_indices = non-empty spans with '
                   'numspans entries containing findspan, refine = sorted permutation of the union, == reflexive and symmetric '
-                  '(np.allclose form refuted). Not proved (tie only): Greville in-support, uniform refinement halves spans, '
-                  'Spline.derivative = pointwise derivative.',
+                  '(np.allclose form refuted). The constructed vector satisfies the boolean open_kv for mult <= max(p,1), so C02\'s '
+                  'theorems (partition of unity, non-negativity, locality, single_ev = collocation = reference) hold on it '
+                  '(make_knots_basis_properties). Greville points: running average, inside the support, strictly inside for the '
+                  'interior ones of an open knot vector (Schoenberg-Whitney position), cell midpoints for p = 0; uniform refinement '
+                  'halves every span; Spline.derivative equals the pointwise derivative (dNref of C02). Not proved: non-singularity '
+                  'of the Greville collocation matrix; the binary64 constructor outside the listed intervals.',
     'level_note': 'Trusted: Coq kernel + vm_compute; PrimFloat primitives; the reading of numpy arange/linspace/unique/convolve in '
                   'coq/lib/NpF.v, NpQ.v (bit-exact / exact comparison every run); translate/np_expr.py; hand transcription in '
                   'coq/C19/Model.v. Float theorem bounded as named. scipy splev not modelled.',
